@@ -7,7 +7,7 @@ ALG = ["algebra/main.cpp"] + ["algebra/c%s.cpp" % n for n in ("01", "02", "03", 
 
 SOLVER = ["solver/main.cpp", "solver/c04.cpp", "solver/c05.cpp", "solver/c10.cpp", "solver/c17.cpp"]
 
-LIFE = ["life/main.cpp", "life/c14.cpp", "life/stubs.cpp", "common/ledger.cpp"]
+LIFE = ["life/main.cpp", "life/c14.cpp", "life/c16.cpp", "life/stubs.cpp", "common/ledger.cpp"]
 
 PROPS = {
     "C01": dict(
@@ -152,6 +152,17 @@ PROPS = {
              "except supported squares; size-changing assignments to externally backed targets. Each must throw, operands bitwise unchanged, ASan silent. distinct_nontrivial = distinct cells.",
         floors=dict(quick={"ctor_groups": 9, "storage.external": 700, "storage.owned": 700}, thorough={"ctor_groups": 9}),
         assumptions=["ASan red zones adjoin the exact-size operand blocks, so a read past the smaller operand is reported", "one process per cell is not needed: the driver restarts a shard after a sanitizer abort"],
+    ),
+    "C16": dict(
+        harness="h_life", sources=LIFE, level="fault_enumeration", exhaustive=True,
+        variants=dict(quick=[V("asan", 8)], thorough=[V("asan", 8), V("opt", 4)]),
+        rule="for every operation of a 90-entry catalogue (constructors, factories, copy/move/proxy assignments onto empty / other-size / same-size targets, aliasing assignments that go through a "
+             "temporary, chained expressions, rotations, transforms, eigen system, ...) x 6 (target dim, operand dim) pairs x {empty cache, cache primed with blocks of both dimensions}: a counting "
+             "pass finds the n allocation attempts (operator new and new[]) inside the call, then for k=1..n the same pre-state is rebuilt and exactly the k-th attempt throws std::bad_alloc. "
+             "Judged after each injection: exception type, ownership-flag invariants (hook), other vectors bitwise unchanged, every vector reassigned and destroyed, ledger errors, no array "
+             "block live after the cache is drained, ASan. distinct_nontrivial = distinct (operation, dims, cache state, k).",
+        floors=dict(quick={"injections": 1000, "allocation_points": 1000}, thorough={"injections": 1000}),
+        assumptions=["only operator new/new[] failures are injected (the property is about std::bad_alloc); GSL's own malloc failures are outside it", "allocations by the harness inside the window (the unique_ptr's object) are extra injection points and harmless"],
     ),
 }
 
